@@ -200,7 +200,7 @@ class Ctx:
         self.tlc_cmds.append(r.cmd)
         return r
 
-    def validate(self, events_path, chunk=25000, jvms=4, workers=4):
+    def validate(self, events_path, chunk=25000, jvms=4, workers=4, slim=None):
         """Trace validation (fan-out): returns (mismatches, u1_ids, n_events).  Each mismatch is a dict with
         the event (`event`) and TLC's report (`what`, `detail`)."""
         # the events are streamed into chunk files (thorough tiers have millions of them; only the events that TLC
@@ -220,6 +220,9 @@ class Ctx:
                     out = open(cp, "w")
                     chunk_paths.append(cp)
                     sizes.append(0)
+                if slim is not None:
+                    # what TLC does not look at is cut from its copy (the event reported on is read from the original)
+                    l = json.dumps(slim(json.loads(l)), separators=(",", ":"))
                 out.write(l if l.endswith("\n") else l + "\n")
                 sizes[-1] += 1
                 n += 1
@@ -249,11 +252,24 @@ class Ctx:
                 self.tlc_cmds.append("TRACE=<events> " + r.cmd)
             wanted = {o["mismatch"] for o in r.json if "mismatch" in o} | {o["u1"] for o in r.json if "u1" in o}
             evs = {}
-            if wanted:
+            if wanted and slim is None:
                 with open(chunk_paths[ci]) as f:
                     for k, l in enumerate(f, 1):
                         if k in wanted:
                             evs[k] = json.loads(l)
+            elif wanted:
+                # the full events, from the original file
+                base = ci * chunk
+                with open(events_path) as f:
+                    k = 0
+                    for l in f:
+                        if not l.strip():
+                            continue
+                        k += 1
+                        if k - base in wanted and k > base:
+                            evs[k - base] = json.loads(l)
+                        if k - base > max(wanted):
+                            break
             for o in r.json:
                 if "mismatch" in o:
                     mism.append({"event": evs[o["mismatch"]], "what": o["what"], "detail": o["detail"]})
